@@ -77,7 +77,7 @@ def startRun (ws : List String) : Except String Model :=
   | _ :: _ :: "m4" :: rest =>
     let mx := (kv rest "max").toNat?.getD 1024
     let pre := (kv rest "prefill").splitOn "," |>.filterMap String.toNat?
-    .ok (.m4 (M4.start mx (kv rest "allow" == "1") pre))
+    .ok (.m4 (M4.start mx (kv rest "allow" == "1") (kv rest "silent" != "0") pre))
   | _ => .error "unknown model"
 
 partial def loop (h : IO.FS.Stream) (d : DState) : IO Unit := do
